@@ -481,7 +481,9 @@ def mon_c06(ex, info, col):
                                     cap = info.wp[wp2].get("cap")
                                     cap = 1.0 if cap is None else (float("inf") if cap == "inf" else cap)
                                     # room is judged by where the components are (their own report), every one of them counted
-                                    used = sum(_sz(c) for c in info.comps if sa["components"][c][1] == wp2)
+                                    # (a top-level component all of whose tasks are FINISHED has been carried out by this step's update: it takes no room any more)
+                                    used = sum(_sz(c) for c in info.comps if sa["components"][c][1] == wp2
+                                               and not (not info.comp_parents.get(c) and info.comp_tasks.get(c) and all(tasks[x][0] == S.T_FINISHED for x in info.comp_tasks[c])))
                                     if not cap - used > size - 1e-8:
                                         continue
                                     for f in info.wp_facilities.get(wp2, []):
@@ -523,8 +525,8 @@ def mon_c07(ex, info, col):
     p = ex.project
     m = ex.m
     absn = set(ex.opts.get("absence") or ())
-    if ex.opts.get("post_remove"):
-        absn = set()  # the absence steps were deleted from the result afterwards
+    if ex.opts.get("post_remove") or ex.opts.get("post_reverse"):
+        absn = set()  # the absence steps were deleted from the result afterwards / the result was reversed by hand (resources are logged ABSENCE at absence steps wherever those are now)
     n = len(p.cost_list)
     col.checks["c07.project-vs-org"] += 1
     if list(p.cost_list) != list(p.organization.cost_list):
